@@ -199,6 +199,22 @@ func c19Data(seed int64, nrec int, v6 bool, poisonAt int, bare bool) (*entities.
 			entities.NewStringInfoElement(ie("destinationPodName", A), c.dstPod),
 			entities.NewStringInfoElement(ie("sourcePodNamespace", A), c.srcNS),
 		)
+		// elements the schemas have no field for (a mediator's "original exporter" elements among
+		// them): they do not show in the payload, and they leave everything else alone
+		if r.IntN(3) == 0 {
+			if r.IntN(2) == 0 {
+				els = append(els, entities.NewUnsigned32InfoElement(ie("originalObservationDomainId", I), 1+r.Uint32()))
+			}
+			if r.IntN(2) == 0 {
+				els = append(els, entities.NewIPAddressInfoElement(ie("originalExporterIPv4Address", I), net.IPv4(192, 0, 2, byte(1+r.IntN(200))).To4()))
+			}
+			if r.IntN(2) == 0 {
+				els = append(els, entities.NewIPAddressInfoElement(ie("originalExporterIPv6Address", I), net.ParseIP(fmt.Sprintf("2001:db8:9::%x", 1+r.IntN(60000)))))
+			}
+			if r.IntN(2) == 0 {
+				els = append(els, entities.NewUnsigned8InfoElement(ie("ipClassOfService", I), uint8(r.Uint32())))
+			}
+		}
 		set.AddRecord(els, 256)
 		recs = append(recs, c)
 	}
